@@ -324,6 +324,7 @@ def empirical_law(chk, rng, seed):
 
 def run(tier, seed):
     chk = common.Check(PID, tier, seed)
+    lattice.REUSE = True          # parameter settings reached on live objects, by every route (see lattice.py)
     rng = random.Random(seed)
     chk.rule = ("lattice points (all parameters non-zero): joint/marginal/conditional identities and detailed balance "
                 "checked by TLC for plain (nv,nh<=4) and purification RBMs (nv<=3, nh,na<=2), conditionals replayed "
